@@ -65,6 +65,12 @@ def make_overlay(scratch):
         for f in files:
             if not f.endswith(".go"):
                 continue
+            # VERIF_FOCUS=c12[,c13]: build only main.go + that property's harness files
+            # (isolates a contributor from other contributors' half-written files)
+            focus = os.environ.get("VERIF_FOCUS")
+            if focus and os.path.basename(root) == "verifharness" and f != "main.go":
+                if not any(f.startswith(p.strip().lower()) for p in focus.split(",")):
+                    continue
             src = os.path.join(root, f)
             rel = os.path.relpath(src, OVERLAY)
             dst = os.path.join(REPO, rel)
